@@ -21,11 +21,17 @@ kf = "\n".join(f"* property={f['property']} {f['rule']} `{f['construct']}` - {f[
 
 
 def put(tag, text, d):
-    pat = re.compile(rf"(<!-- BEGIN {tag} -->\n).*?(\n<!-- END {tag} -->)", re.S)
+    pat = re.compile(rf"(<!-- BEGIN {tag} -->\n).*?(<!-- END {tag} -->)", re.S)
     assert pat.search(d), tag
-    return pat.sub(lambda m: m.group(1) + text + m.group(2), d)
+    return pat.sub(lambda m: m.group(1) + text + "\n" + m.group(2), d)
 
 
+import sys
+sys.path.insert(0, HERE)
+from wrapsa import mutants
+nb = sum(1 for t in mutants.TABLE.values() for m in t if m["kind"] == "break")
+nn = sum(1 for t in mutants.TABLE.values() for m in t if m["kind"] == "benign")
+d = re.sub(r"\d+ breaking \+ \d+ benign edits", f"{nb} breaking + {nn} benign edits", d)
 d = put("seeds", seeds, d)
 d = put("fixed", fx, d)
 d = put("known", kf, d)
